@@ -58,8 +58,8 @@ def _vm_vis(evs):
             out.append("VG %s%%nat" % e[1:])
         else:
             t, f = e[1:].split(":")
-            if e[0] == "U" and f == "2":
-                out.append("VL %s%%nat" % t)
+            if e[0] in "UD" and f == "2":
+                out.append("V%s %s%%nat" % ("L" if e[0] == "U" else "K", t))
                 continue
             out.append("V%s %s%%nat %s" % (e[0], t, "true" if f == "1" else "false"))
     return _vm_lst(out, "vis")
@@ -143,7 +143,7 @@ def _c14_vm_sample(d, tier, coq, build, want=300):
     def kind(c):
         k = c.split(" ", 1)[0]
         # XL: projected end-to-end lines with a LOST RESPONSE of the index PUT (EPutLost)
-        return "XL" if k == "X" and re.search(r" U\d+:2( |$)", c) else k
+        return "XL" if k == "X" and re.search(r" [UD]\d+:2( |$)", c) else k
 
     total = collections.Counter()
     with open(os.path.join(d, "cases.txt")) as f:
@@ -200,7 +200,7 @@ CONFIG = {
         "a descriptor is abstracted to its key (descriptor.FromOCI: media type x digest x size, interned injectively by the harness, 0 = all-zero), its artifact type and the rest of its payload; changes name non-zero descriptors (pushWithIndexing/deleteWithIndexing only index the three manifest media types) - hypothesis changes_nonempty / guard of EGet",
         "Merge: Model/Merge.v hands a batch result to its members in one step (EComplete). Model/MergeFine.v is the same system at CHANNEL granularity (buffered-1 status channels per generation, main status in the buffer, close / blocking sends in complete(), late receivers, the swap as its own lock region); C14_fine_simulated proves that every run of the channel-level system is simulated by a run of Model/Merge.v, so every theorem about reachable states of Model/Merge.v transfers (C14_fine_no_lost_update, C14_fine_structure); both models replay every M / X schedule and must agree with each other and with the implementation; Model/Delivery.v (isolated delivery step: exactly once, boundedness) is kept. Not modelled: a caller is identified with one call; goroutine scheduling inside a lock region",
         "one referrers tag = one copy of the transition system; different tags touch disjoint Pool keys and Merge objects (C14_tags_independent is about the product, by construction). Index manifests are content-addressed: an index without a single referrer (the empty index, zero descriptors only) can be ONE manifest under several tags; its deletion by another tag's update is the environment event EExtDrop of the per-tag system (the tag is dropped; as a set nothing changes) or a 404 on this tag's own DELETE (EDel fail); both are generated (pre-existing indexes are byte-identical across subjects unless DistinctPre) and replayed by the model",
-        "registry: a failed index exchange (EPrepare/EPut/EDel fail) leaves the registry cell unchanged; a LOST RESPONSE of the index PUT (takes effect, answered 500) is a model event of its own (EPutLost; ghost result RLost, seen by the callers as the plain error): C14_lost_response (nil / index-delete error => took effect; plain error => took effect iff the response was lost) and C14_plain_error_no_effect (truthful registry: plain error <=> no effect); the projected X / Y lines of runs with lost responses are judged (results, index, PUT bodies, dangling count: the old index stays); lost responses of the index DELETE / of manifest exchanges are not generated; DELETE of a manifest by digest also drops tags pointing at it",
+        "registry: a failed index exchange (EPrepare/EPut/EDel fail) leaves the registry cell unchanged; a LOST RESPONSE of the index PUT or of the index DELETE (takes effect, answered 500) is a model event of its own (EPutLost / EDelLost; ghost result RLost, seen by the callers as the plain error; a lost DELETE after a PUT yields the index-delete error): C14_lost_response (nil / index-delete error => took effect; plain error => took effect iff the response was lost) and C14_plain_error_no_effect (truthful registry: plain error <=> no effect); the projected X / Y lines of runs with lost responses are judged (results, index, PUT bodies, dangling count: the old index stays); lost responses of the manifest exchanges are not generated; DELETE of a manifest by digest also drops tags pointing at it",
         "Go runtime scheduling / memory model, sync.Mutex, channels, sync/atomic CompareAndSwap, encoding/json and net/http are modelled, not verified; interleavings of the visible events (lock regions, HTTP exchanges) are quantified over",
         "pingReferrers / Referrers() fallback / checkOCISubjectHeader: only SetReferrersCapability's compare-and-swap is modelled (C14_capability_monotone is about that CAS); 'the detected capability never flips' for the detection paths is sampled end-to-end after every exchange, starting from Unknown, with pings never concurrent (one exchange released at a time) - oracle only",
         "OUT OF SCOPE (not in the quantifier, not generated): pre-existing index entries that describe a live referrer with another size / media type (same digest: a different key for applyReferrerChanges, so the referrer is listed twice by digest after a push), entries with a wrong artifact type / annotations (an existing key keeps its OLD payload on Add), stale entries of deleted manifests and entries of other subjects: these are indexes no conforming client produces; the quantifier names duplicates and empty entries; subjects with a sha512 digest (buildReferrersTag yields a 135-character tag, the reference grammar allows 128: every tag-schema path fails with an invalid-reference error before any request is sent - a loud, deterministic failure of the call, no index is touched, nothing is lost; a conformance question of the tag construction (distribution-spec: truncate), not of C14's statement; reported by b-C20, subjects here are sha256)",
